@@ -431,7 +431,7 @@ pub fn sync_prog(s: &mut Src, p: &SyncParams) -> Program {
             continue;
         }
         let mut kind = kinds[s.pick(kinds.len())];
-        if parker[t] && !matches!(kind, 4 | 6 | 7) {
+        if parker[t] && !matches!(kind, 4 | 6 | 7 | 8) {
             kind = 4;
         }
         match kind {
@@ -439,7 +439,9 @@ pub fn sync_prog(s: &mut Src, p: &SyncParams) -> Program {
                 // mutex section step
                 let m = s.pick(nmtx.max(1));
                 if th.held[m] {
-                    match s.pick(4) {
+                    match s.pick(if p.try_lock { 5 } else { 4 }) {
+                        // try_lock on a mutex this thread holds: must report WouldBlock
+                        4 => th.ops.push(Op::TryLock { m: m as u8 }),
                         0 | 1 => th.ops.push(Op::Incr { m: m as u8 }),
                         2 => th.ops.push(Op::Get { m: m as u8 }),
                         _ => {
@@ -469,14 +471,20 @@ pub fn sync_prog(s: &mut Src, p: &SyncParams) -> Program {
             }
             1 => {
                 if th.wheld {
-                    if s.chance(1, 2) {
+                    if p.try_rw && s.chance(1, 4) {
+                        // try_read / try_write while holding the write guard: must fail
+                        th.ops.push(if s.chance(1, 2) { Op::TryRead { r: 0 } } else { Op::TryWrite { r: 0 } });
+                    } else if s.chance(1, 2) {
                         th.ops.push(Op::RwGet { r: 0 });
                     } else {
                         th.ops.push(Op::UnlockW { r: 0 });
                         th.wheld = false;
                     }
                 } else if th.rheld {
-                    if s.chance(1, 2) {
+                    if p.try_rw && s.chance(1, 4) {
+                        // try_write while holding a read guard: must fail
+                        th.ops.push(Op::TryWrite { r: 0 });
+                    } else if s.chance(1, 2) {
                         th.ops.push(Op::RwGet { r: 0 });
                     } else {
                         th.ops.push(Op::UnlockR { r: 0 });
@@ -691,6 +699,9 @@ pub fn lock_handover(s: &mut Src) -> Program {
             (Op::Lock { m: 0 }, Op::Unlock { m: 0 })
         };
         let ops = &mut threads[t];
+        // an inner critical section on another mutex makes the partial-order reduction explore
+        // overlapping outer sections (two readers inside at once)
+        let inner = [Op::Lock { m: 1 }, Op::Incr { m: 1 }, Op::Unlock { m: 1 }];
         if outside {
             if s.chance(1, 2) {
                 ops.extend([access, enter, leave]);
@@ -699,7 +710,17 @@ pub fn lock_handover(s: &mut Src) -> Program {
             }
         } else {
             ops.push(enter);
-            ops.push(access);
+            match s.pick(4) {
+                0 => {
+                    ops.extend(inner.clone());
+                    ops.push(access);
+                }
+                1 => {
+                    ops.push(access);
+                    ops.extend(inner.clone());
+                }
+                _ => ops.push(access),
+            }
             if !use_rw && s.chance(1, 3) {
                 ops.push(Op::Incr { m: 0 });
             }
